@@ -77,6 +77,12 @@ def render(case):
             else:
                 anns.append('(%s%s)' % (name, (' ' + arg) if arg else ''))
         text = run.block(b['name'], ident_ann=' '.join(anns), tags=tags, desc=desc)
+        if b.get('split') and len(anns) > 1:
+            # layout dimension: the identifier annotations spread over continuation lines of the
+            # identifier part, one annotation per line (same meaning as all on the identifier line)
+            one = ' * %s: %s' % (b['name'], ' '.join(anns))
+            assert one in text
+            text = text.replace(one, ' * %s: %s' % (b['name'], '\n * '.join(anns)))
         out.append(run.comment(text, line=100 + 100 * i))
     return out
 
